@@ -76,71 +76,114 @@ Proof. unfold tb_pre_ok. rewrite !andb_true_iff. intros [_ H]. apply Nat.ltb_lt.
 Lemma dm_pre_ok_bs bs max mu pre : dm_pre_ok (dm_cfg_of bs max mu) pre = true -> 0 < dm_bs (dm_cfg_of bs max mu).
 Proof. unfold dm_pre_ok. rewrite !andb_true_iff. intros [[_ H] _]. apply Nat.ltb_lt. auto. Qed.
 
-Theorem check_accepts_model (k : calls) : calls_wf k = true -> check (observe_model k) = (0%N, 0%N, 0%N)%N.
+Lemma wf_queries_binder bs max pre cs : calls_wf (CsBinder bs max pre cs) = true ->
+  tb_pre_ok (tb_cfg_of bs max) pre = true /\ forallb (@has_queries _ _) cs = true.
+Proof. cbn. apply andb_prop. Qed.
+Lemma wf_queries_docs bs max mu pre cs : calls_wf (CsDocs bs max mu pre cs) = true ->
+  dm_pre_ok (dm_cfg_of bs max mu) pre = true /\ forallb (@has_queries _ _) cs = true.
+Proof. cbn. apply andb_prop. Qed.
+
+(* the monitor accepts every run of the models, the diff of a model with itself is empty; the third
+   component only reports whether the printed limits are the documented ones *)
+Theorem check_accepts_model (k : calls) : calls_wf k = true ->
+  check (observe_model k) = (0%N, 0%N, if limits_as_documented (observe_model k) then 0%N else 9%N).
 Proof.
   intros Hwf. unfold check.
   assert (D : diff (observe_model k) = 0%N); [|assert (M : monitor (observe_model k) = 0%N); [|rewrite D, M; reflexivity]].
   - (* diff *)
-    destruct k; cbn [observe_model diff calls_wf] in *; try rewrite Hwf;
-      apply replay_model; auto using tb_ans_refl, dm_ans_refl, cti_ans_refl, ck_ans_refl, irs_ans_refl,
-        cm_ans_refl, ic_ans_refl, sa_ans_refl, unit_refl, ocid_refl, orule_refl.
+    destruct k as [bs max pre cs|bs max mu pre cs|mt mi cs|mk mr cs|mc mm ml cs|mx cs|cs|mr ms mp now cs];
+      cbn [observe_model diff].
+    + destruct (wf_queries_binder _ _ _ _ Hwf) as [Hp _]. rewrite Hp. apply replay_model; auto using tb_ans_refl, unit_refl.
+    + destruct (wf_queries_docs _ _ _ _ _ Hwf) as [Hp _]. rewrite Hp. apply replay_model; auto using dm_ans_refl, unit_refl.
+    + apply replay_model; auto using cti_ans_refl, unit_refl.
+    + apply replay_model; auto using ck_ans_refl, unit_refl.
+    + apply replay_model; auto using irs_ans_refl, unit_refl.
+    + apply replay_model; auto using cm_ans_refl, unit_refl.
+    + apply replay_model; auto using ic_ans_refl, ocid_refl.
+    + apply replay_model; auto using sa_ans_refl, orule_refl.
   - (* monitor *)
     destruct k as [bs max pre cs|bs max mu pre cs|mt mi cs|mk mr cs|mc mm ml cs|mx cs|cs|mr ms mp now cs];
-      cbn [observe_model monitor calls_wf] in *; try rewrite Hwf.
-    + pose proof (pre_ok_bs _ _ _ Hwf) as Hb.
-      apply (@mon_model _ _ _ _ _ _ _ _ _ (lRel (tb_rel (tb_cfg_of bs max))) (fun _ => true)); auto using all_true.
-      * intros sl al cq HR _. unfold tb_mon, tb_lstep.
-        apply (@lmon_step _ _ _ _ _ (fun _ => tb_step (tb_cfg_of bs max)) (tb_answer (tb_cfg_of bs max)) tt _
-                 (fun _ => spec_unit (tb_spec (tb_cfg_of bs max))) tb_chk tb_cross (tb_rel (tb_cfg_of bs max))); auto.
+      cbn [observe_model monitor].
+    + destruct (wf_queries_binder _ _ _ _ Hwf) as [Hp Hq]. rewrite Hp.
+      pose proof (pre_ok_bs _ _ _ Hp) as Hb. set (c := tb_cfg_of bs max) in *.
+      rewrite (nonempty_obs_model (tb_lstep c) (lans (tb_answer c)) cs _ _ Hq).
+      unfold tb_gap, tb_lstep.
+      rewrite (@gap_stable_model _ _ _ _ _ tb_pairs (fun _ => tb_step c) (tb_answer c) tt (tb_Inv c) (tb_linked c)
+                 (fun _ s k H => tb_Inv_step Hb k H) (fun s H => tb_L_nodup Hb H) (fun s qs H => tb_L_pairs Hb qs H)
+                 cs (tb_start c pre, 0%N) [] 0%N); [| exists pre; apply tb_rel_start; auto | constructor].
+      replace (mon_run (tb_mon c) (pre, 0%N) (model_trace (lstep (fun _ : N => tb_step c) tt) (lans (tb_answer c)) (tb_start c pre, 0%N) cs) 0%N) with 0%N; [reflexivity|].
+      symmetry. apply (@mon_model _ _ _ _ _ _ _ _ _ (lRel (tb_rel c)) (fun _ => true)); auto using all_true.
+      * intros sl al cq HR _. unfold tb_mon.
+        apply (@lmon_step _ _ _ _ _ (fun _ => tb_step c) (tb_answer c) tt _
+                 (fun _ => spec_unit (tb_spec c)) tb_chk tb_cross (tb_rel c)); auto.
         -- intros _ s a cq0 H. apply tb_mon_step; auto.
         -- intros s a q H. apply tb_chk_ok; auto.
         -- intros s a qs H. apply tb_cross_ok; auto.
       * split; [apply tb_rel_start; auto|reflexivity].
-    + pose proof (dm_pre_ok_bs _ _ _ _ Hwf) as Hb.
-      apply (@mon_model _ _ _ _ _ _ _ _ _ (lRel (dm_rel (dm_cfg_of bs max mu))) (fun _ => true)); auto using all_true.
-      * intros sl al cq HR _. unfold dm_mon, dm_lstep.
-        apply (@lmon_step _ _ _ _ _ (fun _ => dm_step (dm_cfg_of bs max mu)) (dm_answer (dm_cfg_of bs max mu)) tt _
-                 (fun _ => spec_unit (dm_spec (dm_cfg_of bs max mu))) dm_chk (dm_cross (dm_cfg_of bs max mu)) (dm_rel (dm_cfg_of bs max mu))); auto.
+    + destruct (wf_queries_docs _ _ _ _ _ Hwf) as [Hp Hq]. rewrite Hp.
+      pose proof (dm_pre_ok_bs _ _ _ _ Hp) as Hb. set (c := dm_cfg_of bs max mu) in *.
+      rewrite (nonempty_obs_model (dm_lstep c) (lans (dm_answer c)) cs _ _ Hq).
+      unfold dm_gap, dm_lstep.
+      rewrite (@gap_stable_model _ _ _ _ _ dm_pairs (fun _ => dm_step c) (dm_answer c) tt (dm_Inv c) (fun s => names (dm_flat c s))
+                 (fun _ s k H => dm_Inv_step Hb k H) (fun s H => dm_L_nodup Hb H) (fun s qs H => dm_L_pairs Hb qs H)
+                 cs (dm_start c pre, 0%N) [] 0%N); [| exists pre; apply dm_rel_start; auto | constructor].
+      replace (mon_run (dm_mon c) (pre, 0%N) (model_trace (lstep (fun _ : N => dm_step c) tt) (lans (dm_answer c)) (dm_start c pre, 0%N) cs) 0%N) with 0%N; [reflexivity|].
+      symmetry. apply (@mon_model _ _ _ _ _ _ _ _ _ (lRel (dm_rel c)) (fun _ => true)); auto using all_true.
+      * intros sl al cq HR _. unfold dm_mon.
+        apply (@lmon_step _ _ _ _ _ (fun _ => dm_step c) (dm_answer c) tt _
+                 (fun _ => spec_unit (dm_spec c)) dm_chk (dm_cross c) (dm_rel c)); auto.
         -- intros _ s a cq0 H. apply dm_mon_step; auto.
         -- intros s a q H. apply dm_chk_ok; auto.
         -- intros s a qs H. apply dm_cross_ok; auto.
       * split; [apply dm_rel_start; auto|reflexivity].
-    + apply (@mon_model _ _ _ _ _ _ _ _ _ (lRel cti_rel) (fun _ => true)); auto using all_true.
+    + cbn [calls_wf] in Hwf. rewrite (nonempty_obs_model (cti_lstep (cti_cfg_of mt mi)) (lans cti_answer) cs _ _ Hwf).
+      replace (mon_run _ _ _ _) with 0%N; [reflexivity|]. symmetry.
+      apply (@mon_model _ _ _ _ _ _ _ _ _ (lRel cti_rel) (fun _ => true)); auto using all_true.
       * intros sl al cq HR _. unfold cti_mon, cti_lstep.
         apply (@lmon_step _ _ _ _ _ (fun _ => cti_step (cti_cfg_of mt mi)) cti_answer tt _
                  (fun _ => spec_unit (cti_spec (cti_cfg_of mt mi))) cti_chk (fun _ _ => true) cti_rel); auto.
         -- intros _ s a cq0 H. apply cti_mon_step; auto.
         -- intros s a q H. apply cti_chk_ok; auto.
       * split; [apply cti_rel_init|reflexivity].
-    + apply (@mon_model _ _ _ _ _ _ _ _ _ (lRel ck_rel) (fun _ => true)); auto using all_true.
+    + cbn [calls_wf] in Hwf. rewrite (nonempty_obs_model (ck_lstep (ck_cfg_of mk mr)) (lans ck_answer) cs _ _ Hwf).
+      replace (mon_run _ _ _ _) with 0%N; [reflexivity|]. symmetry.
+      apply (@mon_model _ _ _ _ _ _ _ _ _ (lRel ck_rel) (fun _ => true)); auto using all_true.
       * intros sl al cq HR _. unfold ck_mon, ck_lstep.
         apply (@lmon_step _ _ _ _ _ (fun _ => ck_step (ck_cfg_of mk mr)) ck_answer tt _
                  (fun _ => spec_unit (ck_spec (ck_cfg_of mk mr))) ck_chk (fun _ _ => true) ck_rel); auto.
         -- intros _ s a cq0 H. apply ck_mon_step; auto.
         -- intros s a q H. apply ck_chk_ok; auto.
       * split; [apply ck_rel_init|reflexivity].
-    + apply (@mon_model _ _ _ _ _ _ _ _ _ (lRel irs_rel) (fun _ => true)); auto using all_true.
+    + cbn [calls_wf] in Hwf. rewrite (nonempty_obs_model (irs_lstep (irs_cfg_of mc mm ml)) (lans irs_answer) cs _ _ Hwf).
+      replace (mon_run _ _ _ _) with 0%N; [reflexivity|]. symmetry.
+      apply (@mon_model _ _ _ _ _ _ _ _ _ (lRel irs_rel) (fun _ => true)); auto using all_true.
       * intros sl al cq HR _. unfold irs_mon, irs_lstep.
         apply (@lmon_step _ _ _ _ _ (fun _ => irs_step (irs_cfg_of mc mm ml)) irs_answer tt _
                  (fun _ => spec_unit (irs_spec (irs_cfg_of mc mm ml))) irs_chk (fun _ _ => true) irs_rel); auto.
         -- intros _ s a cq0 H. apply irs_mon_step; auto.
         -- intros s a q H. apply irs_chk_ok; auto.
       * split; [apply irs_rel_init|reflexivity].
-    + apply (@mon_model _ _ _ _ _ _ _ _ _ (lRel cm_rel) (fun _ => true)); auto using all_true.
+    + cbn [calls_wf] in Hwf. rewrite (nonempty_obs_model (cm_lstep (cm_cfg_of mx)) (lans cm_answer) cs _ _ Hwf).
+      replace (mon_run _ _ _ _) with 0%N; [reflexivity|]. symmetry.
+      apply (@mon_model _ _ _ _ _ _ _ _ _ (lRel cm_rel) (fun _ => true)); auto using all_true.
       * intros sl al cq HR _. unfold cm_mon, cm_lstep.
         apply (@lmon_step _ _ _ _ _ (fun _ => cm_step (cm_cfg_of mx)) cm_answer tt _
                  (fun _ => spec_unit (cm_spec (cm_cfg_of mx))) cm_chk (fun _ _ => true) cm_rel); auto.
         -- intros _ s a cq0 H. apply cm_mon_step; auto.
         -- intros s a q H. apply cm_chk_ok; auto.
       * split; [split; auto; apply cm_init_inv|reflexivity].
-    + apply (@mon_model _ _ _ _ _ _ _ _ _ (lRel ic_rel) (fun _ => true)); auto using all_true.
+    + cbn [calls_wf] in Hwf. rewrite (nonempty_obs_model ic_lstep (lans ic_answer) cs _ _ Hwf).
+      replace (mon_run _ _ _ _) with 0%N; [reflexivity|]. symmetry.
+      apply (@mon_model _ _ _ _ _ _ _ _ _ (lRel ic_rel) (fun _ => true)); auto using all_true.
       * intros sl al cq HR _. unfold ic_mon, ic_lstep.
         apply (@lmon_step _ _ _ _ _ (fun _ => ic_step) ic_answer None _
                  (fun _ => ic_spec) ic_chk (fun _ _ => true) ic_rel); auto.
         -- intros _ s a cq0 H. apply ic_mon_step; auto.
         -- intros s a q H. apply ic_chk_ok; auto.
       * split; [split; auto; apply ic_init_inv|reflexivity].
-    + set (c := sa_cfg_of mr ms mp now).
+    + cbn [calls_wf] in Hwf. set (c := sa_cfg_of mr ms mp now).
+      rewrite (nonempty_obs_model (sa_lstep c) (lans sa_answer) cs _ _ Hwf).
+      replace (mon_run _ _ _ _) with 0%N; [reflexivity|]. symmetry.
       apply (@mon_model _ _ _ _ _ _ _ _ _ (lRel (sa_rel c)) (fun _ => true)); auto using all_true.
       * intros sl al cq HR _. unfold sa_mon, sa_lstep.
         apply (@lmon_step _ _ _ _ _ (fun n => sa_step (sa_with_now c n)) sa_answer None _
